@@ -100,6 +100,10 @@ type dbItem struct {
 type dbListSpec struct {
 	T     int      `json:"t"`
 	Items []dbItem `json:"items"`
+	// Rm: after the appends, remove these (owner, data) pairs through the list-level API
+	Rm []dbItem `json:"rm,omitempty"`
+	// Restart: encode the list and decode it again before it is used
+	Restart bool `json:"restart,omitempty"`
 }
 
 type dbOp struct {
@@ -216,6 +220,16 @@ func genListSpec(r *R, types []int, nown int, wellFormedOnly bool) dbListSpec {
 			}
 		}
 		l.Items = append(l.Items, dbItem{O: r.Intn(nown), D: d})
+	}
+	if !wellFormedOnly {
+		for r.Chance(1, 3) && len(l.Rm) < 3 {
+			if r.Bool() {
+				l.Rm = append(l.Rm, Pick(r, l.Items))
+			} else {
+				l.Rm = append(l.Rm, dbItem{O: r.Intn(nown), D: Pick(r, dbCompat[t])})
+			}
+		}
+		l.Restart = r.Chance(1, 5)
 	}
 	return l
 }
@@ -412,6 +426,64 @@ func buildList(x *X, i int, kind string, spec dbListSpec) (*signature.SignatureL
 			fail("dbhist.append_adds_one_entry", "list-level append succeeded but the list does not hold the entry (PEM stored as DER expected: %v)", dbIsPEM(spec.T, it.D))
 			return nil, false
 		}
+	}
+	for _, it := range spec.Rm {
+		data := dbData(it.D)
+		present := listHas(l, dbOwners[it.O], data)
+		ambig := dbIsPEM(spec.T, it.D) && listHas(l, dbOwners[it.O], dbNorm(spec.T, it.D))
+		before := listSnapshot(l)
+		nb := len(l.Signatures)
+		err := l.RemoveBytes(dbOwners[it.O], append([]byte(nil), data...))
+		x.Logf("   list.RemoveBytes(%s, o%d, d%d) present=%v -> %v", typeSig(spec.T), it.O, it.D, present, err)
+		sig := map[string]string{"level": "list", "type": typeSig(spec.T), "op": "remove"}
+		fail := func(oracle, format string, a ...any) {
+			x.Fail(oracle, i, kind, format, a...)
+			if x.Viol != nil && x.Viol.Sig == nil {
+				x.Viol.Sig = sig
+			}
+		}
+		if err != nil {
+			if listSnapshot(l) != before {
+				fail("dbhist.failed_op_changes_nothing", "list-level remove failed (%v) but the list changed", err)
+				return nil, false
+			}
+			if present {
+				fail("dbhist.present_remove_succeeds", "list-level remove of an entry the list holds reported %v", err)
+				return nil, false
+			}
+			continue
+		}
+		if !present && !ambig {
+			fail("dbhist.remove_absent_is_error", "list-level remove of an entry the list does not hold reported success")
+			return nil, false
+		}
+		if len(l.Signatures) != nb-1 {
+			fail("dbhist.remove_deletes_one_entry", "list-level remove: %d entries before, %d after", nb, len(l.Signatures))
+			return nil, false
+		}
+		if present && listHas(l, dbOwners[it.O], data) {
+			fail("dbhist.remove_deletes_one_entry", "list-level remove succeeded but the entry is still in the list")
+			return nil, false
+		}
+		x.Probe("list_remove")
+	}
+	if spec.Restart && len(l.Signatures) > 0 && dbTypes[spec.T].Kind == "supported" {
+		enc := l.Bytes()
+		nl, err := signature.ReadSignatureList(bytes.NewReader(enc))
+		x.Logf("   list restart: %d bytes -> err=%v", len(enc), err)
+		if err != nil {
+			x.Fail("dbhist.restart_decodes_own_output", i, kind, "the library cannot decode a list it encoded (%s): %v", typeSig(spec.T), err)
+			x.Viol.Sig = map[string]string{"level": "list", "type": typeSig(spec.T), "op": "restart"}
+			return nil, false
+		}
+		a, b := signature.SignatureDatabase{l}, signature.SignatureDatabase{nl}
+		if !viewsEqual(viewOf(&a), viewOf(&b)) {
+			x.Fail("dbhist.restart_preserves_view", i, kind, "decode(encode(list)) differs from the list")
+			x.Viol.Sig = map[string]string{"level": "list", "type": typeSig(spec.T), "op": "restart", "lost": "other"}
+			return nil, false
+		}
+		l = nl
+		x.Probe("list_restart")
 	}
 	one := signature.SignatureDatabase{l}
 	if len(l.Signatures) > 0 {
